@@ -63,7 +63,8 @@ CLAIMS = {
    "Grammar-aware hostile inputs are enumerated by TLC (MC_Hostile: per request code, header mutations, size classes, every single violated "
    "body rule, 0..40 descriptors, fresh/negotiated connection) and written by a raw peer to the real BackendReqHandler (overflow checks "
    "on); TLC evaluates the reference validity predicates of Validators.tla on every recorded handler call, the prescribed descriptor "
-   "count, rejection of rule violations, and flags panics/hangs.",
+   "count, rejection of rule violations, and flags panics/hangs. Daemon part: DaemonHostile.tla enumerates well-typed control messages x adversarial "
+   "value classes x set-up levels against a real VhostUserDaemon; panics, killed processes and unanswered requests are judged by TLC.",
    "TLC-enumerated input grammar + TLC trace validation against Validators.tla / BackendServer.tla"),
  "C20": ("exploration", "2/C20",
    "Validators.tla (reference predicates on 16-bit limbs) is evaluated by TLC on the full product of per-field boundary sets (188k points "
@@ -72,7 +73,7 @@ CLAIMS = {
  "C01": ("exploration", "2/C01",
    "The byte-level oracle is WireFormat.tla (written from the protocol documents, not the Rust structs). Traces recorded by independent raw "
    "peers on all four channels (frontend requests, backend replies/acks, backend-initiated requests and acks, GPU requests/replies) are "
-   "evaluated by TLC against it: header, payload bytes, descriptors, and decode in the opposite direction.",
+   "evaluated by TLC against it: header, payload bytes, descriptors (also under partial writes), and decode in the opposite direction.",
    "TLA+ transcription of the wire format evaluated by TLC on recorded byte traces (model-based differential testing)"),
  "C18": ("model_checking", "2/C18",
    "BackendReqChannel.tla is model-checked over all flag/request histories to the cfg depth; every history is replayed through the real "
@@ -105,7 +106,9 @@ CLAIMS = {
  "C08": ("fault_enumeration", "2/C08",
    "Channel.tla (segments, EOF at any offset) is model-checked per message length; all 2-splits, 3-splits, byte-wise delivery and every "
    "cut offset of every served request are delivered as real separate segments to the real BackendReqHandler; TLC validates that the "
-   "result equals the unsegmented one and that truncation is an error without dispatch.",
+   "result equals the unsegmented one and that truncation is an error without dispatch. Sender clause: Sender.tla (send loop over a socket "
+   "accepting any part of a write) is model-checked per message and every partial-write / refused-attempt script is forced on the real "
+   "endpoints through an interposed sendmsg(); TLC validates bytes and the offset at which descriptors arrive.",
    "TLA+ model checking of the channel model + exhaustive split/cut enumeration replayed on the code + TLC trace validation"),
 }
 props = [json.loads(l) for l in open(os.path.join(ROOT, "properties.jsonl"))]
